@@ -781,7 +781,8 @@ def _ctx(name, hist, i):
 
     return {"class": tok[0], "prev": hist[i - 1] if i else "", "solved": "P:SOLVE" in before, "periph": "S:PER" in before,
             "depot": name == "mox2" or "S:FO" in before, "lag": "S:LAG" in before, "mu_before": "P:MU" in before,
-            "after_load": "P:LOAD" in before, "iov": "X:IOV" in before,
+            "after_load": "P:LOAD" in before, "iov": "X:IOV" in before, "fixvar": "D:FIXVAR1" in before,
+            "ivoral": "S:IVORAL" in before, "unloaded": pending("P:UNLOAD", ("P:LOAD",)),
             "fixed_omega": pending("D:ZEROOM", ("P:NONRANDOM", "P:CLEAN"))}
 
 
